@@ -107,6 +107,8 @@ def apply_op(ld, model, weighted, op, flags):
             flags['heaviest_changed'] = True
         ld.remove(it)
         del model[it]
+    elif kind == 'refresh_total':
+        ld.update_total_weight()          # the recomputation used against roundoff: must leave total == sum of current weights
     elif kind == 'random_removal':
         _, pick = op
         leaves = [lf for lf in forkrng.enumerate_paths(lambda rng: ld.choose_random(), max_leaves=5000)
@@ -210,6 +212,11 @@ def make_machine(ctx, sub, weighted, state):
             it = list(self.model)[k % len(self.model)]
             self._do(('remove', it))
 
+        @precondition(lambda self: weighted and hasattr(self.ld, 'update_total_weight'))
+        @rule()
+        def refresh_total(self):
+            self._do(('refresh_total',))
+
         @precondition(lambda self: len(self.model) > 0 and (not weighted or sum(self.model.values()) > 0))
         @rule(pick=st.integers(0, 50))
         def random_removal(self, pick):
@@ -258,6 +265,9 @@ def run_machine(ctx, sub, weighted, max_examples, steps):
 def replay(ctx, sub, case):
     if sub.startswith('machine'):
         return run_ops(case['weighted'], case['ops']).failures
+    if sub == 'behavioural-SIS':
+        from . import c02
+        return c02.tree_prop_weighted(case).failures
     from . import c01
     return c01.replay(ctx, sub, case)
 
@@ -265,7 +275,7 @@ def replay(ctx, sub, case):
 def run(ctx):
     quick = ctx.tier == 'quick'
     ctx.rule = ('Hypothesis rule-based machine: histories of insert(item,w>=0)/update(item,inc>=0)/remove/'
-                'random_removal over 9 items and a weight pool with repeats and extremes (1e-3..1e3); after every '
+                'random_removal/refresh of the running total over 9 items and a weight pool with repeats and extremes (1e-3..1e3); after every '
                 'step exact selection law (forking RNG) == w/sum(w), total_weight()==sum, len/in == dict model. '
                 'Non-trivial: weighted history in which the heaviest candidate was removed or replaced by a lighter '
                 'one while >=2 distinct weights remain (unweighted: >=4 ops); distinct by op-history digest.')
@@ -279,5 +289,7 @@ def run(ctx):
     try:
         from . import c01
         c01.behavioural_weighted(ctx, 'behavioural', quick)
+        from . import c02
+        c02.behavioural_weighted(ctx, 'behavioural-SIS', quick)
     except ImportError:
         pass
